@@ -329,6 +329,10 @@ def B(n):
         "note-in-list": [f"- {t(0)}", "", f"    @note {t(1)}", f"    {t(2)}", "    @endnote"],
         "note-2para": ["@note", f"{t(0)}", "", f"{t(1)}", "@endnote"],
         "two-notes": [f"@note {t(0)}", f"@warning {t(1)}", "@endwarning"],
+        # text in front of a start marker on the same line (an end marker without / not matching a start marker is rejected by
+        # FORD on purpose, with a message quoting the lines: not generated)
+        "text-before-note": [f"{t(0)} {t(1)} @note {t(2)}", "@endnote"],
+        "text-before-note-open": [f"{t(0)} @warning {t(1)}", f"{t(2)}"],
     }
 
 
